@@ -995,7 +995,7 @@ func jwkKeys(keys []ref.JWTKey) []ref.JWTKey {
 
 func main() {
 	h.Main("C09", "exploration",
-		"(1) HS256 validator space through ComputeMACAndEncode -> VerifyMACAndDecode: token (typ,iss in {absent,x,y}; aud in {absent,x,y,[x],[y,x],[y,z]}) x validator per field {expect none, ignore, expect x, (aud: deprecated field), inadmissible combinations} x exp/nbf/iat at now-/+skew -1,0,+1,+2 s, epoch, year 9999, absent x AllowMissingExpiration x ExpectIssuedInThePast x skew {0,1s,1.5s,10min,10min+1ns} x FixedNow fraction {0,.5,.999999999}: sections validator-fields and validator-time are full products of their half with the other half at defaults, validator-pairs explores all combinations of <=3 non-default dimensions, validator-product (thorough) is the full product of fields x skew x fraction {0,.5} x near-boundary times x flags; (2) key types x kid strategy x keyset shape x every subset of the 7 registered claims x custom-claim variants; (3) header / payload / structure / signature manipulation catalogue (re-signed with the real key inside the signed part; every signature bit flip, every truncation) per key type x kid strategy x keyset {single, pair} x validator {lenient, strict}; (4) JWK export -> reference reader and -> import, harness-written JWK -> import, private/symmetric export refused; plus fractional NumericDate probe. Every token is decided by tink and by the reference decision procedure ref.JWTAccept; verdict and returned claims must agree. Non-trivial = an execution that decided at least one token or validator; distinct = distinct choice vectors.",
+		"(1) HS256 validator space through ComputeMACAndEncode -> VerifyMACAndDecode: token (typ,iss in {absent,x,y}; aud in {absent,x,y,[x],[y,x],[y,z]}) x validator per field {expect none, ignore, expect x, (aud: deprecated field), inadmissible combinations} x exp/nbf/iat at now-/+skew -1,0,+1,+2 s, epoch, year 9999, absent x AllowMissingExpiration x ExpectIssuedInThePast x skew {0,1s,1.5s,10min,10min+1ns} x FixedNow fraction {0,.5,.999999999}: sections validator-fields and validator-time are full products of their half with the other half at defaults, validator-pairs explores all combinations of <=3 non-default dimensions, validator-product (thorough) is the full product of fields x skew x fraction {0,.5} x near-boundary times x flags; (2) key types x kid strategy x keyset shape x every subset of the 7 registered claims x custom-claim variants; (3) header / payload / structure / signature manipulation catalogue (re-signed with the real key inside the signed part; every signature bit flip, every truncation) per key type x kid strategy x keyset {single, pair} x validator {lenient, strict}; (4) JWK export -> reference reader and -> import, harness-written JWK -> import, private/symmetric export refused; (5) tink-generated keys: every algorithm x kid strategy x size through Manager.AddNewKeyFromParameters and every template of jwt_key_templates.go through keyset.NewHandle and Manager.Add (RSA > 2048 bits thorough only; entropy from a tape seeded by the choice vector): tokens of the generated key vs its Public() verifier and vs the reference holding the requested alg / kid rule and the generated public material, signature bit flips, JWK export/import; plus fractional NumericDate probe. Every token is decided by tink and by the reference decision procedure ref.JWTAccept; verdict and returned claims must agree. Non-trivial = an execution that decided at least one token or validator; distinct = distinct choice vectors.",
 		[]h.Section{
 			{Name: "validator-fields", Body: validatorProduct(true, false), Bound: -1},
 			{Name: "validator-time", Body: validatorProduct(false, true), Bound: -1},
@@ -1004,5 +1004,7 @@ func main() {
 			{Name: "roundtrip-jwk", Body: roundTripSection, Bound: -1},
 			{Name: "manipulation", Body: manipulationSection, Bound: -1},
 			{Name: "fractional-time", Body: fractionalSection, Bound: -1},
+			// last: binds a per-thread entropy tape (the dispatcher stays installed under crypto/rand afterwards)
+			{Name: "tink-generated-keys", Body: generatedKeysSection, Bound: -1},
 		})
 }
